@@ -62,6 +62,10 @@ def build_shim(cl, precision, workdir):
     for ident in ("p0_discontinuous", "p1_discontinuous", "rwg0", "snc0"):
         src.append("void w_shape_%s(%s u, %s v, %s* res) { REALTYPE2 pt = {u, v}; %s_evaluate(&pt, res); }" % (
             ident, rt, rt, rt, ident))
+    src.append("REALTYPE w_const_inv_4pi() { return M_INV_4PI; }")
+    src.append("REALTYPE w_const_4pi() { return M_4PI; }")
+    src.append("REALTYPE w_const_one() { return M_ONE; }")
+    src.append("REALTYPE w_const_zero() { return M_ZERO; }")
     src.append("}")
     cpp = os.path.join(workdir, "c20_wrap_%d.cpp" % precision)
     so = os.path.join(workdir, "c20_wrap_%d.so" % precision)
@@ -92,8 +96,127 @@ def call_cl(lib, name, mode, cells, dtype, x, ys, nx, nys, p):
     return res
 
 
+def fallback(pl):
+    """Translators failed closed: differential test of the compiled headers against the Numba kernels without any IR.
+    Kernel lists are read from the headers by regex and from the two selection functions themselves."""
+    import re
+    import types
+    import collections
+    res = {"corr": {"evaluations": 0, "nontrivial": 0, "disagreements": [], "hist": {}, "samples": []},
+           "search": {"evaluations": 0, "worst": {}}, "failures": [], "notes": ["fallback search (no translated model)"]}
+    rng = np.random.default_rng(int(os.environ.get("VERIF_SEED", "0")))
+    txt = open(os.path.join(INC, "kernels.h")).read()
+    kernels, gradient = {}, {}
+    for m in re.finditer(r"inline\s+void\s+(\w+?)_(novec|vec4|vec8|vec16)\s*\(([^)]*)\)", txt):
+        if m.group(1) == "diff":
+            continue
+        tgt = gradient if "result[3][2]" in m.group(3) else kernels
+        tgt.setdefault(m.group(1), {})[m.group(2)] = {}
+    cl = {"kernels": kernels, "gradient": gradient}
+    sys.modules.setdefault("pyopencl", types.ModuleType("pyopencl"))
+    import bempp_cl.core.numba_kernels as nk
+    try:
+        import bempp_cl.core.opencl_kernels as ok
+    except Exception as e:
+        res["notes"].append("cannot import opencl_kernels: %r" % (e,))
+        return res
+    D = collections.namedtuple("D", "kernel_type assembly_type")
+    kts = ["%s_%s" % (f, k) for f in ("laplace", "helmholtz", "modified_helmholtz")
+           for k in ("single_layer", "double_layer", "adjoint_double_layer")] + \
+          ["helmholtz_far_field_single_layer", "helmholtz_far_field_double_layer"]
+    libs = {}
+    for prec, dt in ((1, np.float64), (0, np.float32)):
+        lib, err = build_shim(cl, prec, os.getcwd())
+        if lib is not None:
+            libs[prec] = (lib, dt)
+        else:
+            res["notes"].append("g++ failed: " + err[-500:])
+    for kt in kts:
+        try:
+            nbfn = nk.select_numba_kernels(D(kt, "default_scalar"), "regular")[1]
+            clname = ok.select_cl_kernel(D(kt, "default_scalar"), "regular")[1]
+        except Exception as e:
+            res["failures"].append({"signature": "C20 selection: kernel type %s not selectable" % kt,
+                                    "what": "selection functions raise for kernel type %s" % kt, "data": {"exception": repr(e)}})
+            continue
+        for prec, (lib, dt) in libs.items():
+            rel = 1e-9 if dt == np.float64 else 1e-3
+            for mode in kernels.get(clname, {}):
+                n = MODES[mode]
+                for c in range(100):
+                    x, ys, nx, nys, p = K.sample_batch(rng, n, dmin=1e-2, dmax=1e2, wavenumber=K.wnk(kt, c))
+                    xa, ysa, nxa, nysa = [np.asarray(a, dtype=dt) for a in (x, ys, nx, nys)]
+                    pa = np.asarray(p, dtype=dt)
+                    ref = np.asarray(nbfn(xa, ysa, nxa, nysa, pa))
+                    got = call_cl(lib, clname, mode, 2, dt, xa, ysa, nxa, nysa, pa)
+                    d = np.linalg.norm(ys - x[:, None], axis=0)
+                    ak = math.hypot(*p)
+                    mag = K.M_INV_4PI * (1 + ak + 1 / d + (1 + ak * d) / d ** 2)
+                    g = got[0].astype(float) + 1j * got[1].astype(float)
+                    res["search"]["evaluations"] += n
+                    bad = np.abs(g - ref) > rel * mag
+                    if bad.any():
+                        l = int(np.argmax(bad))
+                        res["failures"].append({
+                            "signature": "C20 kernel %s: kernels.h %s_%s differs from numba_kernels.%s" % (
+                                kt, clname, mode, nbfn.__name__),
+                            "what": "OpenCL kernel value differs from the Numba kernel",
+                            "data": {"precision": "double" if prec else "single", "x": x.tolist(), "y": ys[:, l].tolist(),
+                                     "nx": nx.tolist(), "ny": nys[:, l].tolist(), "p": list(p),
+                                     "opencl": [g[l].real, g[l].imag], "numba": [complex(ref[l]).real, complex(ref[l]).imag]}})
+                        break
+    return res
+
+
+def replay_case(pl):
+    """Re-evaluate one recorded failing input (kernel comparison) on the current tree."""
+    import re
+    rp = pl["replay"]
+    res = {"corr": {"evaluations": 0, "nontrivial": 0, "disagreements": [], "hist": {}, "samples": []},
+           "search": {"evaluations": 0, "worst": {}}, "failures": [], "notes": ["replay of one recorded input"]}
+    m = re.match(r"C20 kernel (\w+): kernels.h (\w+)_(novec|vec4|vec8|vec16) differs from numba_kernels.(\w+)$", rp["signature"])
+    data = rp.get("input") or {}
+    if not m or "env" not in data:
+        res["notes"].append("replay not applicable to this signature: rerun the search instead")
+        res["not_applicable"] = True
+        return res
+    kt, clname, mode, nbname = m.groups()
+    import bempp_cl.core.numba_kernels as nk
+    prec = 1 if data.get("precision", "double") == "double" else 0
+    dt = np.float64 if prec else np.float32
+    lib, err = build_shim({"kernels": {clname: {mode: {}}}, "gradient": {}}, prec, os.getcwd())
+    if lib is None:
+        res["failures"].append({"signature": rp["signature"], "what": "kernels.h no longer compiles: " + err[-300:], "data": data})
+        return res
+    e = data["env"]
+    n = MODES[mode]
+    x = np.array([e["x0"], e["x1"], e["x2"]], dtype=dt)
+    y = np.array([e["y0"], e["y1"], e["y2"]], dtype=dt)
+    nx = np.array([e["nx0"], e["nx1"], e["nx2"]], dtype=dt)
+    ny = np.array([e["ny0"], e["ny1"], e["ny2"]], dtype=dt)
+    p = np.array([e["p0"], e["p1"]], dtype=dt)
+    ys, nys = np.repeat(y[:, None], n, axis=1), np.repeat(ny[:, None], n, axis=1)
+    fn = getattr(nk, nbname)
+    ref = np.asarray(fn(np.repeat(x[:, None], n, axis=1), ys, nx, ny, p) if nbname.endswith("_singular")
+                     else fn(x, ys, nx, nys, p))
+    got = call_cl(lib, clname, mode, 2, dt, x, ys, nx, nys, p)
+    g = complex(float(got[0, 0]), float(got[1, 0]))
+    tol = data.get("tol") or (1e-12 if prec else 1e-4) * (abs(complex(ref[0])) + K.M_INV_4PI)
+    res["search"]["evaluations"] = 1
+    if not abs(g - complex(ref[0])) <= tol:
+        res["failures"].append({"signature": rp["signature"], "what": "recorded input still fails",
+                                "data": dict(data, opencl_now=[g.real, g.imag], numba_now=[complex(ref[0]).real, complex(ref[0]).imag])})
+    return res
+
+
 def main():
     pl = K.payload()
+    if pl.get("replay"):
+        K.out(replay_case(pl))
+        return
+    if pl.get("fallback"):
+        K.out(fallback(pl))
+        return
     strength = pl.get("strength", "quick")
     nb, cl = pl["numba"], pl["cl"]
     rng = np.random.default_rng(int(os.environ.get("VERIF_SEED", "0")))
@@ -181,8 +304,22 @@ def main():
                             disagree("cl-ir", "translated %s_%s cell %d differs from the compiled header (%s)" % (
                                 base, mode, j, "double" if prec else "single"),
                                 {"env": env, "compiled": float(got[j, l]), "ir": v, "lane": l})
-        # shapesets
+        # search: the macro constants as the compiler reads them, against 1/(4 pi), 4 pi in the type (one ulp)
         ct = ctypes.c_float if dt == np.float32 else ctypes.c_double
+        for cname, want in (("inv_4pi", 1.0 / (4 * math.pi)), ("4pi", 4 * math.pi), ("one", 1.0), ("zero", 0.0)):
+            fn = getattr(lib, "w_const_" + cname)
+            fn.restype = ct
+            fn.argtypes = []
+            got = float(fn())
+            ulp = float(np.spacing(dt(want))) if want else 0.0
+            res["search"]["evaluations"] += 1
+            if got != float(dt(want)):       # the shipped literals round to exactly the correctly rounded constants
+                res["failures"].append({
+                    "signature": "C20 constant M_%s (%s precision) is not the rounded real constant" % (
+                        cname.upper(), "double" if prec else "single"),
+                    "what": "macro of bempp_base_types.h is not the correctly rounded constant of its type",
+                    "data": {"macro": got, "expected": float(dt(want)), "ulp": ulp}})
+        # shapesets
         for ident, cells_ir in pl["shapes_cl"].items():
             fn = getattr(lib, "w_shape_" + ident)
             fn.restype = None
@@ -257,6 +394,77 @@ def main():
                         continue
                     break
                 res["search"]["worst"]["%s_%s_%s" % (clname, mode, "d" if prec else "s")] = round(worst, 4)
+    # singular kernels (evaluate_dense_singular.cl calls KERNEL(novec) with one test point per quadrature point)
+    for kt, nbname in nb["tables"]["kernel_functions_singular"].items():
+        clname = table.get(kt)
+        if clname is None or "novec" not in cl["kernels"].get(clname, {}):
+            res["failures"].append({"signature": "C20 selection: kernel type %s has no OpenCL novec kernel" % kt,
+                                    "what": "kernels.h does not provide the novec variant for kernel type " + kt, "data": {}})
+            continue
+        fn = getattr(nk, nbname)
+        info = nb["kernels"][nbname]
+        for prec, (lib, dt) in libs.items():
+            rel = 2e-13 if dt == np.float64 else 3e-5
+            for c in range(nsearch):
+                lanes = 3
+                x, ys, nx, nys, p = K.sample_batch(rng, lanes, wavenumber=wnk(kt, c))
+                xs = (x[:, None] + rng.uniform(-1e-3, 1e-3, (3, lanes)))
+                xa, ysa, nxa, nya = [np.asarray(a, dtype=dt) for a in (xs, ys, nx, nys[:, 0])]
+                pa = np.asarray(p, dtype=dt)
+                ref = np.asarray(fn(xa, ysa, nxa, nya, pa))
+                bad = False
+                for l in range(lanes):
+                    got = call_cl(lib, clname, "novec", 2, dt, xa[:, l], ysa[:, [l]], nxa, nya[:, None], pa)
+                    env = K.env_of(xa[:, l].astype(float), ysa[:, l].astype(float), nxa.astype(float), nya.astype(float),
+                                   pa.astype(float))
+                    mag = K.ev(info["re"], env)[1] + K.ev(info["im"], env)[1]
+                    g = complex(float(got[0, 0]), float(got[1, 0]))
+                    res["search"]["evaluations"] += 1
+                    if not abs(g - complex(ref[l])) <= rel * mag + 1e-300:
+                        res["failures"].append({
+                            "signature": "C20 kernel %s: kernels.h %s_novec differs from numba_kernels.%s" % (kt, clname, nbname),
+                            "what": "OpenCL kernel value differs from the Numba singular kernel beyond the precision of the type",
+                            "data": {"precision": "double" if prec else "single", "env": env, "opencl": [g.real, g.imag],
+                                     "numba": [complex(ref[l]).real, complex(ref[l]).imag]}})
+                        bad = True
+                        break
+                if bad:
+                    break
+    # gradient kernel vs the gradient slots of fmm/helpers.helmholtz_kernel
+    import bempp_cl.api.fmm.helpers as fh
+    ginfo = nb["fmm"].get("helmholtz_kernel")
+    for base, modes in cl["gradient"].items():
+        for prec, (lib, dt) in libs.items():
+            rel = 2e-13 if dt == np.float64 else 3e-5
+            for mode in modes:
+                n = MODES[mode]
+                for c in range(max(4, nsearch // 2)):
+                    x, ys, nx, nys, p = K.sample_batch(rng, n, wavenumber=wnk(base, c))
+                    xa, ysa, nxa, nysa = [np.asarray(a, dtype=dt) for a in (x, ys, nx, nys)]
+                    pa = np.asarray(p, dtype=dt)
+                    got = call_cl(lib, base, mode, 6, dt, xa, ysa, nxa, nysa, pa)
+                    ref = np.asarray(fh.helmholtz_kernel(xa[:, None].astype(np.float64), ysa.astype(np.float64),
+                                                         pa.astype(np.float64), np.dtype("float64"), np.complex128))
+                    bad = False
+                    for l in range(n):
+                        env = K.env_of(xa.astype(float), ysa[:, l].astype(float), nxa.astype(float), nysa[:, l].astype(float),
+                                       pa.astype(float))
+                        for d in range(3):
+                            mag = K.ev(ginfo["comps"][d + 1]["re"], env)[1] + K.ev(ginfo["comps"][d + 1]["im"], env)[1]
+                            g = complex(float(got[2 * d, l]), float(got[2 * d + 1, l]))
+                            r_ = complex(ref[4 * l + 1 + d])
+                            res["search"]["evaluations"] += 1
+                            if not abs(g - r_) <= rel * mag + 1e-300:
+                                res["failures"].append({
+                                    "signature": "C20 kernel helmholtz_gradient: kernels.h %s_%s differs from fmm.helpers.helmholtz_kernel" % (base, mode),
+                                    "what": "OpenCL Helmholtz gradient differs from the gradient slots of the Numba point kernel",
+                                    "data": {"precision": "double" if prec else "single", "env": env, "component": d,
+                                             "opencl": [g.real, g.imag], "numba": [r_.real, r_.imag]}})
+                                bad = True
+                        if bad:
+                            break
+                    if bad:
+                        break
     res["notes"].append("total %.1fs" % (time.time() - t0))
     K.out(res)
 
